@@ -32,6 +32,8 @@ type World struct {
 	cg      *callgraph.Graph
 	allFns  map[*ssa.Function]bool
 	fnIndex map[string]*ssa.Function
+
+	fieldWrites map[string][]FieldWrite
 }
 
 // Load type-checks every package of the module at dir (plus dependencies)
